@@ -87,6 +87,26 @@ Theorem C07_code_only_at_sign_in : forall c now ep q src,
 Proof. exact code_gated. Qed.
 Print Assumptions C07_code_only_at_sign_in.
 
+(* the Location actually written for a code redirect: URL.String() of the re-parsed redirect with
+   the configured scheme is, up to the end of the authority, [authority_string (c_scheme c) u]
+   (all ASCII, so http.Redirect leaves it alone); whatever path / query / fragment follows, every
+   RFC reading of the emitted text names an in-domain host *)
+Theorem C07_code_location_in_domain : forall c now ep q src,
+  serve c now ep q = ORedirect src WithCode ->
+  forallb byte_ok src = true -> (c_scheme c = [] \/ scheme_ok (c_scheme c)) ->
+  exists u, go_parse src = Some u /\
+    forall tail s' ui' h' p' r', rest_ok tail ->
+      rfc_split (authority_string (c_scheme c) u ++ tail) s' ui' h' p' r' ->
+      in_domain (rfc_hostname h') (c_domains c).
+Proof. exact code_location_in_domain. Qed.
+Print Assumptions C07_code_location_in_domain.
+
+Theorem C07_code_location_prefix : forall c src u,
+  go_parse src = Some u -> forallb byte_ok src = true -> forallb ascii (c_scheme c) = true ->
+  location_prefix c (ORedirect src WithCode) = Some (authority_string (c_scheme c) u).
+Proof. exact code_location_prefix. Qed.
+Print Assumptions C07_code_location_prefix.
+
 (* the signature gate: accepted  ==>  all fields present, ts is a base-10 int64 t, the decoded
    sig IS the MAC under the client secret of  uri ++ decimal(t), and now - t <= 5 min
    (the age test is one-sided, as in the code: a future t passes) *)
